@@ -49,7 +49,7 @@ class LanguageClassesFactory:
                     for superasset in asset.super_assets
                 ]
             for defense in filter(lambda step: step.type == 'defense', asset.attack_steps):
-                if defense.ttc and defense.ttc['name'] == 'Enabled':
+                if defense.ttc and defense.ttc.get('name') == 'Enabled':
                     default_defense_value = 1.0
                 else:
                     default_defense_value = 0.0
